@@ -192,12 +192,15 @@ def _rand_hist(rng):
     total = rng.choice([800, 1200, 2000, 4000, 100000])
     npool = rng.choice([4, 8, 30])
     ops = []
+    seen = []
     for _ in range(rng.randint(1, 12)):
         r = rng.random()
         name = rng.randint(1, 4)
         if r < 0.55:
             k = rng.choice([0, 1, 1, 2, 2, 3, 4])
-            hs = [rng.randint(1, npool) for _ in range(k)]
+            # new hashes, or (half of the time) hashes that were uploaded earlier in this history
+            hs = [rng.choice(seen) if seen and rng.random() < 0.5 else rng.randint(1, npool) for _ in range(k)]
+            seen.extend(hs)
             if rng.random() < 0.8:
                 hs = list(dict.fromkeys(hs))     # a program usually has distinct segments
             ops.append(['upload', name, [[h, SEG_LEN[h]] for h in hs], rng.random() < 0.35])
@@ -371,6 +374,9 @@ def hist_safe(case, obs):
         if HERR.get(st['err'], 'HInternal') == 'HInternal':
             return 'step %d (%s): the driver raised %s' % (k, case['ops'][k][0], st['err'])
         n = len(st['dev'])
+        if st['hashes'] != st['dev']:
+            return 'step %d (%s): the driver records slot contents %r but the instrument holds %r' % (
+                k, case['ops'][k][0], st['hashes'], st['dev'])
         for name, w2s, segs in st['progs']:
             if len(w2s) != len(segs):
                 return 'step %d: program %d has %d slots for %d segments' % (k, name, len(w2s), len(segs))
@@ -543,6 +549,12 @@ def search_failing(ctx, broken):
                 budget -= 1
                 if budget <= 0:
                     break
+    for _ in range(4000):
+        case = _rand_hist(rng)
+        obs = run_impl(case)
+        why = py_spec(case, obs)
+        if why and classify(case, obs) is None:
+            return shrink(case, obs, ctx) + (why,)
     hp = [1, 2, 3, 4, 5]
     cp = [192, 208, 224, 256, 384, 400]
     for _ in range(20000):
